@@ -190,6 +190,12 @@ Definition remove (s : store) (k : I) : R (option (I * P * nat) * store) :=
 
 (** ** Store::retain_mut (store.rs:328); [retain] is the special case of a
     predicate that rewrites nothing.  One callback per entry, in slot order. *)
+(** if elements were removed, the tables are reset to the identity *)
+Definition realign (s : store) : store :=
+  let n := length (smap s) in
+  if decide (n = ssize s) then s
+  else set_qp (set_heap (set_size s n) (seq 0 n)) (seq 0 n).
+
 Fixpoint retain_entries (f : I -> P -> I * P * bool) (s : store)
   (done todo : list (I * P)) : R (list (I * P) * store) :=
   match todo with
@@ -201,18 +207,17 @@ Fixpoint retain_entries (f : I -> P -> I * P * bool) (s : store)
           retain_entries f s1 (if b then done ++ [(i', p')] else done) todo'
       | Unwound s1 =>
           (* Vec::retain_mut's drop guard: the processed survivors, then the
-             entry being examined and the unprocessed tail, unchanged *)
-          Unwound (set_map s1 (done ++ e :: todo'))
+             entry being examined and the unprocessed tail, unchanged; then
+             the store's own drop guard (Realign) lets the map finish its
+             bookkeeping and realigns heap, qp and size with the map *)
+          Unwound (realign (set_map s1 (done ++ e :: todo')))
       | Fault x => Fault x
       end
   end.
 
 Definition retain_mut (s : store) (f : I -> P -> I * P * bool) : R store :=
   '(m', s1) ← retain_entries f s [] (smap s);
-  let s2 := set_map s1 m' in
-  if decide (length m' = ssize s2) then Ok s2
-  else Ok (set_qp (set_heap (set_size s2 (length m')) (seq 0 (length m')))
-                  (seq 0 (length m'))).
+  Ok (realign (set_map s1 m')).
 
 (** ** Store::drain / clear (store.rs:213, :251): tables and map are emptied
     at the call; the elements belong to the iterator from then on *)
